@@ -57,6 +57,10 @@ def run(ctx):
             ex = T.exhaustive_small_cases(fl)
             groups.append(list(range(len(cases), len(cases) + len(ex))))
             cases += ex
+    byname = {c[0]: i for i, c in enumerate(cases)}
+    for be in ("mem", "libc"):
+        groups.append([byname["quiet-mid-a-" + be], byname["quiet-mid-b-" + be]])
+    groups.append([byname["quiet-mid-a-mem"], byname["quiet-mid-b-libc"]])
     res, mm = T.run_cases(ctx, cases, "c01")
     if res is None:
         return
